@@ -154,3 +154,66 @@ Proof.
     + etransitivity; eassumption.
   - apply NoDup_map_filter, Hnd.
 Qed.
+
+(* ---- integer-valued float sums are exact, hence independent of the order *)
+Section Rights.
+  Variable round : Z -> Z.
+  Hypothesis round_exact : forall z, Z.abs z <= 2 ^ 53 -> round z = z.
+
+  Lemma abs_sum_nonneg l : 0 <= abs_sum l.
+  Proof. induction l; simpl; lia. Qed.
+
+  Lemma fold_fadd_exact : forall l a,
+    Z.abs a + abs_sum l <= 2 ^ 53 -> fold_left (fadd round) l a = a + zsum l.
+  Proof.
+    induction l as [|x r IH]; intros a Hb; simpl in *.
+    - lia.
+    - pose proof (abs_sum_nonneg r).
+      unfold fadd at 2. rewrite round_exact by lia. rewrite IH by lia. lia.
+  Qed.
+
+  Lemma zsum_abs l : Z.abs (zsum l) <= abs_sum l.
+  Proof. induction l; simpl; lia. Qed.
+
+  Lemma abs_sum_app l r : abs_sum (l ++ r) = abs_sum l + abs_sum r.
+  Proof. induction l; simpl; lia. Qed.
+
+  Lemma zsum_app l r : zsum (l ++ r) = zsum l + zsum r.
+  Proof. induction l; simpl; lia. Qed.
+
+  Lemma vote_rights_from_exact : forall stakes a,
+    Z.abs a + abs_sum (concat stakes) <= 2 ^ 53 ->
+    vote_rights_from round a stakes = a + zsum (concat stakes).
+  Proof.
+    unfold vote_rights_from.
+    induction stakes as [|l r IH]; intros a Hb; simpl in *.
+    - lia.
+    - rewrite abs_sum_app in Hb. pose proof (abs_sum_nonneg l). pose proof (abs_sum_nonneg (concat r)).
+      pose proof (zsum_abs l).
+      assert (Hin : inner_total round l = zsum l).
+      { unfold inner_total. rewrite fold_fadd_exact; simpl; lia. }
+      rewrite Hin. unfold fadd at 2. rewrite round_exact by lia.
+      rewrite IH by lia. rewrite zsum_app. lia.
+  Qed.
+
+  Lemma vote_rights_exact stakes :
+    abs_sum (concat stakes) <= 2 ^ 53 -> vote_rights round stakes = zsum (concat stakes).
+  Proof. intros Hb. unfold vote_rights. rewrite vote_rights_from_exact; simpl; lia. Qed.
+
+  Lemma zsum_perm l l' : Permutation l l' -> zsum l = zsum l'.
+  Proof. induction 1; simpl; lia. Qed.
+
+  Lemma abs_sum_perm l l' : Permutation l l' -> abs_sum l = abs_sum l'.
+  Proof. induction 1; simpl; lia. Qed.
+
+  (* whatever order the two nested maps are walked in *)
+  Lemma vote_rights_order_independent stakes stakes' :
+    Permutation (concat stakes) (concat stakes') ->
+    abs_sum (concat stakes) <= 2 ^ 53 ->
+    vote_rights round stakes = vote_rights round stakes'.
+  Proof.
+    intros Hp Hb. rewrite !vote_rights_exact; auto.
+    - apply zsum_perm, Hp.
+    - rewrite <- (abs_sum_perm _ _ Hp). exact Hb.
+  Qed.
+End Rights.
